@@ -479,6 +479,20 @@ def c03_transition(ctx: Ctx) -> List[Violation]:
     # no instruction can divert a vehicle that is carrying passengers
     for vid, pre_v in ctx.pre.vehicles.items():
         s = pre_v.vehicle_state
+        if s.__class__.__name__ == "ServicingPoolingTrip" and len(s.trip_plan) > 0 and len(s.boarded_requests) > 0:
+            # pooled passengers on board: the same rule
+            post_s = ctx.post.vehicles[vid].vehicle_state
+            pn = post_s.__class__.__name__
+            if vid in instructed:
+                ctx.cov["c03:instruction_to_pooling_vehicle_with_passengers"] += 1
+            still = pn == "ServicingPoolingTrip" and set(post_s.boarded_requests.keys()) <= set(s.boarded_requests.keys())
+            dropped_all = all(drops[r] == 1 for r in s.boarded_requests.keys()) and pn in ("ServicingPoolingTrip", "Idle")
+            if pn == "OutOfService":
+                if not out_of_energy_plausible(ctx, vid):
+                    out.append(Violation("C03", "diverted", ("OutOfService", instr_kind(ctx, vid), "pooling"), f"vehicle {vid} carrying pooled passengers went out of service with energy left"))
+            elif not (still or dropped_all):
+                out.append(Violation("C03", "diverted", (pn, instr_kind(ctx, vid), "pooling"), f"vehicle {vid} carrying pooled passengers {sorted(s.boarded_requests.keys())} became {pn}"))
+            continue
         if s.__class__.__name__ != "ServicingTrip" or len(s.route) == 0:
             continue
         post_s = ctx.post.vehicles[vid].vehicle_state
@@ -1270,6 +1284,13 @@ def c06_transition(ctx: Ctx) -> List[Violation]:
             if b.geoid != a.geoid and len(getattr(sb, "route", ())) > 0 and sname(b) == sname(a):
                 ctx.cov["c06:mid_link_split"] += 1
         for clause, disc, msg in c06_vehicle_step(rn, a, b, moves.get(vid, []), step_s):
-            full = "battery_full" if clause == "stuck_after_arrival" and ctx.env.mechatronics[a.mechatronics_id].is_full(a) else ""
-            out.append(Violation("C06", clause, disc + ((full,) if full else ()), msg))
+            extra = ""
+            if clause == "stuck_after_arrival":
+                if ctx.env.mechatronics[a.mechatronics_id].is_full(a):
+                    extra = "battery_full"
+                elif sname(a) == "DispatchTrip":
+                    req = ctx.pre.requests.get(a.vehicle_state.request_id)
+                    if req is not None and req.allows_pooling and a.driver_state.allows_pooling:
+                        extra = "request_allows_pooling"
+            out.append(Violation("C06", clause, disc + ((extra,) if extra else ()), msg))
     return out
